@@ -2,6 +2,8 @@
 # runs every claimed check (quick tier) on /repo's working tree; prints one line per property
 cd /verif
 rc=0
+python3 tools/lint_rules.py 2>/dev/null | grep -v WARNING || true
+python3 tools/lint_rules.py >/dev/null 2>&1 || { echo 'LINT rc=1 undefined names in the rule library'; rc=1; }
 for p in $(python3 -c "import json;print(' '.join(c['property_id'] for c in json.load(open('MANIFEST.json'))['checks']))"); do
   out=$(./check $p --tier ${1:-quick} 2>&1); r=$?
   echo "$p rc=$r $(echo "$out" | tail -1 | cut -c1-160)"
